@@ -286,13 +286,13 @@ fn run(ctx: &mut Ctx, prop: &'static str) {
         _ => vec![CType::Relaxed],
     };
     let dds = vec![DdKind::Lel, DdKind::Frontier, DdKind::Pooled];
-    let cases = ctx.tier.pick(25_000, 600_000);
+    let cases = ctx.tier.pick(80_000, 800_000);
     let strat = dd_case_strategy(GenParams::default_small(), types.clone(), dds.clone());
     ctx.pt_run("dd-random", cases, strat, |c| serde_json::to_value(c).unwrap(), |c, obs| eval(c, obs, prop));
     // long-arc models (depth free, irrelevance) with the pooled dd get their own share
     let mut p = GenParams::default_small();
     p.embed = Some(false);
-    let cases = ctx.tier.pick(10_000, 250_000);
+    let cases = ctx.tier.pick(30_000, 300_000);
     let strat = dd_case_strategy(p, types, vec![DdKind::Pooled]);
     ctx.pt_run("dd-random-pooled-depthfree", cases, strat, |c| serde_json::to_value(c).unwrap(), |c, obs| eval(c, obs, prop));
 }
